@@ -69,7 +69,7 @@ def setup_engine(E):
     E.I.overrides["vf.contracts.rt.cli_args"] = _cli_args
 
 
-DEFINES = [(None, {}), (["V=5"], {"V": 5}), (["A=0x10", "B=0b101"], {"A": 16, "B": 5}), (["N=65536"], {"N": 65536})]
+DEFINES = [(None, {}), (["V=5"], {"V": 5}), (["A=0x10", "B=0b101"], {"A": 16, "B": 5}), (["N=65536"], {"N": 65536}), (["Z=0", "Y=0x00", "X=0b0"], {"Z": 0, "Y": 0, "X": 0})]
 
 
 def shape_cli(fmt, mapping, copier, defines, expected):
